@@ -32,7 +32,7 @@ macro_rules! stats_struct {
 }
 stats_struct!(
     bodies, applies, deliveries, postponed, max_postponed_one_target, nested_replay, skipped_dead, skipped_dead_postponed, optional_taken, optional_skipped, polled_events, polled_in_tree, polled_reactions, payloads, payload_zero_listeners, payload_abort_release, doomed_insts, once_fired, once_retrigger_after_fire, revokes_applied, revoke_mid_dispatch, kills, kill_self, err_returns, excl_bodies, registrations, reg_dead_entity, slot_respawn, max_depth, roots, multi_kind_same_tree, sibling_reorder, frames, guaranteed_gc, guaranteed_poll, a1_ambiguous, ewr_bodies, ewr_nodata_ok, inserts_dead_at_apply, setifneq_equal, setifneq_diff, removal_reinsert_removal, sig_zero, entity_recursive_despawn, fifo_pairs_checked, sys_calls, reactors_per_key_ge7,
-    probes, ev_total, replayed, sys_recursive, acc_ops, single_acc, app_setup_again, bulk_collected, max_bulk, ewr_readd, res_removed, res_trigger_while_absent, excl_flushed_in_body, sig_zero_during_gc, sig_moved_into_entity, collected_observed, sig_zero_in_tree, payload_owned_signal_released, sys_cleared
+    probes, ev_total, replayed, sys_recursive, acc_ops, single_acc, app_setup_again, bulk_collected, max_bulk, ewr_readd, res_removed, res_trigger_while_absent, excl_flushed_in_body, sig_zero_during_gc, sig_moved_into_entity, collected_observed, sig_zero_in_tree, payload_owned_signal_released, sys_cleared, dw_bodies, dw_self_postponed, dw_self_ran, polled_after_last_poll, sys_dw_calls, excl_flushed_mid_trigger, trigger_raced_pending
 );
 
 #[derive(Clone, Debug)]
@@ -101,6 +101,8 @@ struct InstM
     /// its last handle may or may not have been released (a revoke raced an invisible poll): alive or collected, unknown
     limbo: bool,
     busy: bool,
+    /// executing or just back in place: a command for it may be postponed or run (see `run`, `DeferredW`)
+    busy_unknown: bool,
     runs: u32,
     once_fired: bool,
     real: Option<u64>,
@@ -174,6 +176,9 @@ struct Payload
     must_drop_now: bool,
     /// a signal clone owned by the payload
     holds: Option<usize>,
+    /// sent by a direct call while commands were pending on the world's queue: provisionally applied with the listeners of
+    /// *before* those commands (if there were none the payload may be dropped at once and nobody reacts)
+    raced: bool,
 }
 
 #[derive(Clone, Debug)]
@@ -197,6 +202,8 @@ struct Polled
     closed: bool,
     /// the run (issuer, run number) whose command caused the removal / despawn
     sender: (u8, u32),
+    /// value of `sure_epoch` when the event happened: once that has moved on, a poll of the framework has certainly seen it
+    sure: u64,
     /// value of the poll epoch when the event happened: while it is unchanged no poll can have seen the event
     epoch: u64,
 }
@@ -282,10 +289,20 @@ pub struct Checker<'a>
     in_op_prologue: bool,
     /// Polls happen at runner boundaries, at explicit poll calls and in `Last`: all visible in the trace. The epoch advances at
     /// each of them, so "no poll can have happened since X" is decidable.
+    /// who would react to the direct trigger call being executed if it were computed *before* the commands still pending on the
+    /// world's queue are applied (see A2, `excl_noflush`)
+    pre_targets: Option<Vec<Inst>>,
+    pre_ent: Option<EntId>,
+    pre_t_present: Option<bool>,
     poll_epoch: u64,
+    /// counts the points at which the framework certainly polls (runner entry, abort, discard, after a system's commands,
+    /// explicit polls, `Last`)
+    sure_epoch: u64,
     /// entities whose last signal clone was gone when a guaranteed collection started: they must be gone when it is over
     gc_must: Vec<EntId>,
     gc_pending_deadline: bool,
+    /// entities a collection inside a tree / batch should have taken: judged at the end of the step
+    gc_overdue: Vec<EntId>,
     gc_before: Vec<bool>,
     /// entities whose last signal clone went inside the current root tree: every runner exit collects, so they must be gone
     /// when the tree ends
@@ -321,7 +338,7 @@ impl<'a> Checker<'a>
     pub fn new(prog: &'a Program, trace: &'a [Ev], hooks: bool) -> Self
     {
         let insts = prog.insts.iter().map(|d| InstM {
-            origin: d.origin, known: false, created: false, alive: false, doomed: false, limbo: false, busy: false, runs: 0,
+            origin: d.origin, known: false, created: false, alive: false, doomed: false, limbo: false, busy: false, busy_unknown: false, runs: 0,
             once_fired: false, real: None, canary: false, chain_doomed: false, revoked_keys: Vec::new(), kinds_this_tree: 0,
         }).collect();
         Checker {
@@ -330,7 +347,7 @@ impl<'a> Checker<'a>
             tokens: vec![None; prog.insts.len()], res: [0, 0, 0], res_t_present: true, payloads: HashMap::new(), pending_immediate_drop: None,
             polled: Vec::new(), postponed: Vec::new(), stack: Vec::new(), tree_depth: 0, seq: 0, sender: (DRIVER, 0),
             wr_keys: [Vec::new(), Vec::new()], sigs: vec![(None, 0); 4], doomed_ents: Vec::new(), resolve_uncertain: Vec::new(), fifo: HashMap::new(),
-            gc_guaranteed_this_step: false, in_direct_step: false, in_gc: false, in_op_prologue: false, poll_epoch: 0, gc_must: Vec::new(), gc_pending_deadline: false, gc_before: Vec::new(), doomed_in_tree: Vec::new(), sig_harness: [0; 4], deferred_bail: None, bulk_released: 0, bulk_held: 0, bulk_alive: 0, wq: Default::default(), iss_counter: 0, cur_iss: 0, iss_of: HashMap::new(), sys: Default::default(),
+            gc_guaranteed_this_step: false, in_direct_step: false, in_gc: false, in_op_prologue: false, pre_targets: None, pre_ent: None, pre_t_present: None, poll_epoch: 0, sure_epoch: 0, gc_must: Vec::new(), gc_pending_deadline: false, gc_overdue: Vec::new(), gc_before: Vec::new(), doomed_in_tree: Vec::new(), sig_harness: [0; 4], deferred_bail: None, bulk_released: 0, bulk_held: 0, bulk_alive: 0, wq: Default::default(), iss_counter: 0, cur_iss: 0, iss_of: HashMap::new(), sys: Default::default(),
         }
     }
 
@@ -484,6 +501,7 @@ impl<'a> Checker<'a>
         self.judge_floats(true)?;
         if self.gc_pending_deadline { self.gc_deadline()?; }
         if matches!(self.trace.get(self.pos), Some(Ev::Runner(..)) | Some(Ev::LastPollBegin) | Some(Ev::LastPollEnd)) { self.poll_epoch += 1; }
+        if matches!(self.trace.get(self.pos), Some(Ev::Runner(k, _)) if [RK_ENTER, RK_ENTER_ROOT, RK_ABORT, RK_DISCARD].contains(k)) || matches!(self.trace.get(self.pos), Some(Ev::LastPollBegin)) { self.sure_epoch += 1; }
         self.pos += 1;
         Ok(())
     }
@@ -724,7 +742,8 @@ impl<'a> Checker<'a>
         if in_tree { self.stats.polled_in_tree += 1; }
         let sender = self.sender;
         let epoch = self.poll_epoch;
-        self.polled.push(Polled { kind, ent, must, extra, delivered: Vec::new(), in_tree, closed: false, sender, epoch });
+        let sure = self.sure_epoch;
+        self.polled.push(Polled { kind, ent, must, extra, delivered: Vec::new(), in_tree, closed: false, sender, epoch, sure });
     }
 
     fn despawn_ent(&mut self, e: EntId)
@@ -833,6 +852,10 @@ impl<'a> Checker<'a>
         {
             if self.ents[e].alive
             {
+                // A collection requested from inside a reaction tree or a batch may itself run inside the flush that Bevy performs at
+                // the start of `World::despawn` -- of the very entity an enclosing collection is busy taking. It then finds nothing
+                // to do and the enclosing one finishes the job right after: judged when the step is over.
+                if !(self.in_direct_step && self.tree_depth == 0) { self.gc_overdue.push(e); continue; }
                 let bits = self.real(e);
                 fail!(self, "C10", "autodespawn-leak", &[], "entity {bits:#x} survived a garbage collection although every clone of its signal had been dropped before the collection started");
             }
@@ -845,8 +868,23 @@ impl<'a> Checker<'a>
 
     fn payload_issue(&mut self, id: u32)
     {
+        if self.payloads.get(&id).map(|p| p.raced).unwrap_or(false) { return; }
         self.stats.payloads += 1;
-        self.payloads.insert(id, Payload { applied: false, dropped: false, unresolved: Vec::new(), must_drop_now: false, holds: None });
+        self.payloads.insert(id, Payload { applied: false, dropped: false, unresolved: Vec::new(), must_drop_now: false, holds: None, raced: false });
+    }
+
+    /// A raced payload (see `Payload::raced`) that was dropped before the pending commands were applied: the event is over, whoever
+    /// registered through those commands does not hear of it. Only legitimate if nobody had to react.
+    fn payload_raced_and_gone(&mut self, id: u32, list: &[Delivery]) -> Res<bool>
+    {
+        let Some(p) = self.payloads.get(&id) else { return Ok(false) };
+        if !(p.raced && p.dropped) { if let Some(p) = self.payloads.get_mut(&id) { p.raced = false; } return Ok(false); }
+        if let Some(d) = list.iter().find(|d| !d.optional)
+        {
+            let t = d.target;
+            fail!(self, "C05", "drop-too-early", &["C01"], "payload {id:#x} was dropped although instance {t} has to react to it");
+        }
+        Ok(true)
     }
 
     /// The payload takes one of the harness's clones of signal `k` with it (if the harness holds one).
@@ -863,6 +901,7 @@ impl<'a> Checker<'a>
     fn payload_apply(&mut self, id: u32, readers: &[Delivery]) -> Res<()>
     {
         let dropped = self.payloads.get(&id).map(|p| p.dropped).unwrap_or(false);
+        if dropped && self.payloads.get(&id).map(|p| p.raced).unwrap_or(false) { return Ok(()); }
         if dropped { fail!(self, "C05", "drop-too-early", &[], "payload {id:#x} was dropped before its send command was applied"); }
         let p = self.payloads.get_mut(&id).unwrap();
         p.applied = true;
@@ -1043,6 +1082,11 @@ impl<'a> Checker<'a>
         {
             let p = self.polled[i].clone();
             if p.closed || (only_in_tree && !p.in_tree) { i += 1; continue; }
+            // Happened after the last poll of the tree (a command that a `DeferredWorld` system left on the world's queue was applied
+            // by the closing flush): there was no "later system-command boundary of the same tree"; the next poll -- the next
+            // tree's or the scheduled one -- is its deadline.
+            // (the same holds for an explicit or scheduled poll: what its own closing flush caused, it has not seen)
+            if p.sure == self.sure_epoch { if only_in_tree { self.polled[i].in_tree = false; } self.stats.polled_after_last_poll += 1; i += 1; continue; }
             for (inst, reg) in &p.must
             {
                 let t = &self.insts[*inst as usize];
@@ -1082,6 +1126,9 @@ impl<'a> Checker<'a>
                 first = false;
                 continue;
             }
+            // commands an exclusive body left on the world's queue are applied inside the call that triggers these reactions: after
+            // the framework has worked out who reacts, before the first reaction runs
+            if !self.wq.is_empty() { let n = self.wq.len(); self.drain_wq()?; if self.wq.len() < n { self.stats.excl_flushed_mid_trigger += 1; continue; } }
             // no runner invocation for the remaining deliveries
             // (a delivery whose target is gone "runs zero times": whether the runner is entered for it at all is not the
             // properties' business, only that whatever it carried is released)
@@ -1272,6 +1319,7 @@ impl<'a> Checker<'a>
                     }
                     return self.unexpected_body(inst, s, "a delivery that accounts for this run");
                 };
+                if self.insts[inst as usize].busy_unknown { let t = &mut self.insts[inst as usize]; t.busy = false; t.busy_unknown = false; self.stats.dw_self_ran += 1; }
                 let t = &self.insts[inst as usize];
                 if t.busy { fail!(self, "C09", "postponed-ran-too-early", &["C02"], "instance {inst} ran for {:?} while it is already executing", d.cause); }
                 if t.once_fired { fail!(self, "C15", "once-ran-twice", &["C18"], "one-off reactor {inst} ran again, for {:?}", d.cause); }
@@ -1301,6 +1349,7 @@ impl<'a> Checker<'a>
                 {
                     fail!(self, "C02", "postponed-although-idle", &["C09", "C11"], "delivery {:?} to instance {} was postponed although that system is not executing", d.cause, d.target);
                 }
+                if t.busy_unknown { self.stats.dw_self_postponed += 1; }
                 self.postpone(d);
             }
             _ =>
@@ -1430,7 +1479,9 @@ impl<'a> Checker<'a>
         // an exclusive system's cleanup is the first command on the world queue: it runs at the first flush inside the body
         if excl { if let Some(reg) = held.take() { self.drop_handle(reg); } }
         let script: &'a [Op] = prog.insts[ti].script(n);
-        let (issued, err) = self.issue_script(script, inst, n, excl)?;
+        let dw = def.flavour == Flavour::DeferredW;
+        if dw { self.stats.dw_bodies += 1; }
+        let (issued, err) = self.issue_script(script, inst, n, excl, dw)?;
         match self.peek()?
         {
             Some(Ev::BodyEnd { inst: i2, n: n2, err: e2 }) if *i2 == inst && *n2 == n && *e2 == err => self.advance()?,
@@ -1453,6 +1504,11 @@ impl<'a> Checker<'a>
         self.sender = saved_sender;
         self.stack.pop();
         self.insts[ti].busy = false;
+        // What a `DeferredWorld` system queued is applied by the first flush after its body: inside the runner's collection (if
+        // that despawns anything) while the system is still taken out, or by the closing poll when it is back in place. Which one
+        // is not observable, so a command for this very system may be postponed or run until one of them has run.
+        let dw_me = (inst, n);
+        if dw && self.wq.iter().any(|(_, _, s)| *s == dw_me) { self.insts[ti].busy = true; self.insts[ti].busy_unknown = true; }
         if def.origin == Origin::Once
         {
             // a one-off reactor despawns itself and revokes its triggers after its first run
@@ -1462,8 +1518,22 @@ impl<'a> Checker<'a>
             if let Some(tok) = self.tokens[ti].clone() { self.revoke(tok.inst, &tok.trigs); }
         }
         // post-run stage: polled reactions, then postponed deliveries for this system, until the runner returns
+        self.sure_epoch += 1;
         loop
         {
+            if dw
+            {
+                if !self.wq.is_empty() { let len = self.wq.len(); self.drain_wq()?; if self.wq.len() < len { continue; } }
+                if self.wq.iter().any(|(_, _, s)| *s == dw_me)
+                {
+                    // work this execution queued must be complete before anything postponed for it is replayed and before the runner
+                    // returns (C09); at the root that is also "every run transitively caused has happened" (C02)
+                    let (u, _, _) = self.wq.iter().find(|(_, _, s)| *s == dw_me).cloned().unwrap();
+                    self.peek()?;
+                    fail!(self, "C09", "own-commands-not-applied", &["C02", "C11"], "instance {inst} (a system that queues through `DeferredWorld`) has finished, but its command {u:#x} is still sitting in the world's command queue when the runner moves on");
+                }
+                if self.insts[ti].busy_unknown { self.insts[ti].busy = false; self.insts[ti].busy_unknown = false; }
+            }
             match self.peek_runner()?
             {
                 Some((k, _)) if k == RK_ENTER || k == RK_ENTER_ROOT =>
@@ -1554,9 +1624,28 @@ impl<'a> Checker<'a>
         }
     }
 
-    fn issue_script(&mut self, ops: &'a [Op], issuer: u8, run: u32, excl: bool) -> Res<(Vec<(u32, Issued)>, bool)>
+    fn issue_script(&mut self, ops: &'a [Op], issuer: u8, run: u32, excl: bool, dw: bool) -> Res<(Vec<(u32, Issued)>, bool)>
+    {
+        self.issue_script_r(ops, issuer, run, excl, dw, false)
+    }
+
+    /// `restricted`: the system has no parameters of its own to act through (it queues through a `DeferredWorld`): ops that need
+    /// some are no-ops.
+    fn issue_script_r(&mut self, ops: &'a [Op], issuer: u8, run: u32, excl: bool, dw: bool, restricted: bool) -> Res<(Vec<(u32, Issued)>, bool)>
     {
         let mut out = Vec::new();
+        if dw
+        {
+            // everything goes on the world's own command queue and stays there until something flushes it: a collection that
+            // despawns something, or the runner's closing poll
+            for (idx, op) in ops.iter().enumerate()
+            {
+                let u = uid(issuer, run, idx);
+                let is = self.issue(op, u, true)?;
+                self.wq.push_back((u, is, self.sender));
+            }
+            return Ok((out, false));
+        }
         if excl
         {
             // in script order: `Now` ops act immediately, the rest goes on the world's command queue and is applied at the next
@@ -1595,7 +1684,7 @@ impl<'a> Checker<'a>
         {
             let u = uid(issuer, run, idx);
             if matches!(op, Op::ReturnErr) { return Ok((out, true)); }
-            let is = self.issue(op, u, excl)?;
+            let is = self.issue(op, u, excl || restricted)?;
             out.push((u, is));
         }
         Ok((out, false))
@@ -1815,6 +1904,26 @@ impl<'a> Checker<'a>
         self.prog.insts.iter().position(|d| d.origin == Origin::EntityWorld(k)).map(|i| i as Inst)
     }
 
+    fn targets_now(&self, ent: Option<(EntId, EKind)>, key: Key) -> Vec<Inst>
+    {
+        let mut v: Vec<Inst> = Vec::new();
+        if let Some((e, kind)) = ent { if self.ents[e].alive { v.extend(self.ents[e].ereg.iter().filter(|r| r.kind == kind).map(|r| r.inst)); } }
+        v.extend(self.tables.get(&key).map(|t| t.iter().map(|(i, _)| *i).collect::<Vec<_>>()).unwrap_or_default());
+        v
+    }
+
+    /// A direct trigger call made while commands were still pending on the world's queue: whether the framework works out who
+    /// reacts before or after it applies them is its own business. Who reacts either way must; who reacts only one way may.
+    fn adjust_pending(&mut self, list: &mut Vec<Delivery>, cause: &Cause)
+    {
+        let Some(mut pre) = self.pre_targets.take() else { return };
+        for d in list.iter_mut()
+        {
+            match pre.iter().position(|i| *i == d.target) { Some(pos) => { pre.remove(pos); } None => { d.optional = true; self.stats.trigger_raced_pending += 1; } }
+        }
+        for i in pre { let d = self.mk(i, cause.clone(), true, None); list.push(d); self.stats.trigger_raced_pending += 1; }
+    }
+
     fn tw_deliveries(&mut self, key: Key, cause: Cause, optional: bool) -> Vec<Delivery>
     {
         let v: Vec<Inst> = self.tables.get(&key).map(|v| v.iter().map(|(i, _)| *i).collect()).unwrap_or_default();
@@ -1847,6 +1956,7 @@ impl<'a> Checker<'a>
         let mut list = self.ent_deliveries(e, EKind::Mut(c), Cause::Mut(c, e));
         // (a trigger on an entity that is already gone still reaches the type-wide reactors: one trigger per call, C14/C01)
         list.extend(self.tw_deliveries(Key::Mut(c), Cause::Mut(c, e), false));
+        self.adjust_pending(&mut list, &Cause::Mut(c, e));
         self.process_deliveries(list)
     }
 
@@ -1865,8 +1975,10 @@ impl<'a> Checker<'a>
 
     fn do_broadcast(&mut self, p: P, id: u32) -> Res<()>
     {
-        let list = self.tw_deliveries(Key::Broadcast(p), Cause::Broadcast(p, id), false);
+        let mut list = self.tw_deliveries(Key::Broadcast(p), Cause::Broadcast(p, id), false);
+        self.adjust_pending(&mut list, &Cause::Broadcast(p, id));
         self.payload_apply(id, &list)?;
+        if self.payload_raced_and_gone(id, &list)? { return Ok(()); }
         self.process_deliveries(list)
     }
 
@@ -1876,7 +1988,9 @@ impl<'a> Checker<'a>
         if !alive { self.stats.a1_ambiguous += 1; }
         let mut list = self.ent_deliveries(e, EKind::Ev(p), Cause::EntityEvent(p, id, e));
         list.extend(self.tw_deliveries(Key::AnyEE(p), Cause::EntityEvent(p, id, e), false));
+        self.adjust_pending(&mut list, &Cause::EntityEvent(p, id, e));
         self.payload_apply(id, &list)?;
+        if self.payload_raced_and_gone(id, &list)? { return Ok(()); }
         self.process_deliveries(list)
     }
 
@@ -1896,7 +2010,8 @@ impl<'a> Checker<'a>
     fn do_trigger_res(&mut self, r: R) -> Res<()>
     {
         if r == R::T && !self.res_t_present { self.stats.res_trigger_while_absent += 1; }
-        let list = self.tw_deliveries(Key::Res(r), Cause::Resource(r), false);
+        let mut list = self.tw_deliveries(Key::Res(r), Cause::Resource(r), false);
+        self.adjust_pending(&mut list, &Cause::Resource(r));
         self.process_deliveries(list)
     }
 
@@ -2012,7 +2127,56 @@ impl<'a> Checker<'a>
     fn exec_wop(&mut self, w: &WOp, u: u32) -> Res<()>
     {
         // (nearly every world operation flushes the world's command queue before it acts)
-        if !self.wq.is_empty() { self.in_op_prologue = true; let r = self.drain_wq(); self.in_op_prologue = false; r?; }
+        let slot = |me: &Self, s: Slot| me.slots[s as usize];
+        let mut pre = None;
+        // (the caller names the entity before the call: a slot that a pending command re-spawns still means the old entity)
+        let mut pre_ent = None;
+        let mut pre_t = None;
+        if !self.wq.is_empty()
+        {
+            if self.prog.excl_noflush
+            {
+                pre_ent = match w { WOp::EntityEvent(s, _) | WOp::TriggerMutation(s, _) => Some(slot(self, *s)), _ => None };
+                // (likewise the caller looks whether the removable resource exists before the call)
+                if matches!(w, WOp::TriggerRes(R::T)) { pre_t = Some(self.res_t_present); }
+                pre = match w
+                {
+                    WOp::Broadcast(p) => Some(self.targets_now(None, Key::Broadcast(*p))),
+                    WOp::EntityEvent(s, p) => Some(self.targets_now(Some((slot(self, *s), EKind::Ev(*p))), Key::AnyEE(*p))),
+                    WOp::TriggerMutation(s, c) => Some(self.targets_now(Some((slot(self, *s), EKind::Mut(*c))), Key::Mut(*c))),
+                    WOp::TriggerRes(r) => Some(self.targets_now(None, Key::Res(*r))),
+                    _ => None,
+                };
+            }
+            // (a payload nobody listens to *before* the pending commands are applied may be dropped right away)
+            if let (Some(l0), WOp::Broadcast(_) | WOp::EntityEvent(..)) = (&pre, w)
+            {
+                self.payload_issue(u);
+                let p = self.payloads.get_mut(&u).unwrap();
+                p.raced = true;
+                p.applied = true;
+                p.unresolved = l0.iter().map(|i| (*i, false)).collect();
+            }
+            let before = self.wq.len();
+            self.in_op_prologue = true; let r = self.drain_wq(); self.in_op_prologue = false; r?;
+            if self.wq.len() == before
+            {
+                pre = None;
+                if let Some(p) = self.payloads.get_mut(&u) { if p.raced && !p.dropped { p.raced = false; p.applied = false; p.unresolved.clear(); } }
+            }
+        }
+        self.pre_targets = pre;
+        self.pre_ent = pre_ent;
+        self.pre_t_present = pre_t;
+        let r = self.exec_wop_inner(w, u);
+        self.pre_targets = None;
+        self.pre_ent = None;
+        self.pre_t_present = None;
+        r
+    }
+
+    fn exec_wop_inner(&mut self, w: &WOp, u: u32) -> Res<()>
+    {
         let slot = |me: &Self, s: Slot| me.slots[s as usize];
         match w
         {
@@ -2032,7 +2196,7 @@ impl<'a> Checker<'a>
             WOp::Despawn(s) => { let e = slot(self, *s); self.despawn_ent(e); }
             WOp::DespawnRec(s) => { let e = slot(self, *s); self.despawn_rec(e); }
             WOp::Remove(s, c) => { let e = slot(self, *s); self.do_remove(e, *c)?; }
-            WOp::TriggerMutation(s, c) => { let e = slot(self, *s); self.do_mutation_trigger(e, *c)?; }
+            WOp::TriggerMutation(s, c) => { let e = self.pre_ent.take().unwrap_or(slot(self, *s)); self.do_mutation_trigger(e, *c)?; }
             WOp::Insert(s, c, v) => { let e = slot(self, *s); let ex = self.ents[e].alive; self.do_insert(e, *c, *v, ex)?; }
             WOp::Gc =>
             {
@@ -2064,6 +2228,7 @@ impl<'a> Checker<'a>
             WOp::Poll =>
             {
                 self.poll_epoch += 1;
+                self.sure_epoch += 1;
                 self.stats.guaranteed_poll += 1;
                 // inside a tree the reactions may be postponed (invisibly) until busy ancestors finish: the deadline is the tree's end
                 // (a poll inside a tree guarantees nothing new: reactions may already be queued behind the current one, or get postponed)
@@ -2074,8 +2239,8 @@ impl<'a> Checker<'a>
             WOp::KillInst(i) => { if self.insts[*i as usize].known { self.kill_inst(*i); } }
             WOp::SysEvent(i, p) => { if self.insts[*i as usize].known { self.payload_issue(u); self.do_sys_event(*i, *p, u)?; } }
             WOp::Broadcast(p) => { self.payload_issue(u); self.do_broadcast(*p, u)?; }
-            WOp::EntityEvent(s, p) => { let e = slot(self, *s); self.payload_issue(u); self.do_entity_event(e, *p, u)?; }
-            WOp::TriggerRes(r) => { if *r != R::T || self.res_t_present { self.do_trigger_res(*r)?; } }
+            WOp::EntityEvent(s, p) => { let e = self.pre_ent.take().unwrap_or(slot(self, *s)); self.payload_issue(u); self.do_entity_event(e, *p, u)?; }
+            WOp::TriggerRes(r) => { if *r != R::T || self.pre_t_present.take().unwrap_or(self.res_t_present) { self.do_trigger_res(*r)?; } }
             WOp::Run(i) => { if self.insts[*i as usize].known { self.do_run(*i)?; } }
             WOp::Reparent(child, parent) =>
             {
@@ -2242,7 +2407,7 @@ impl<'a> Checker<'a>
     {
         let saved = self.sender;
         self.sender = (issuer, run);
-        let (issued, _) = self.issue_script(ops, issuer, run, false)?;
+        let (issued, _) = self.issue_script(ops, issuer, run, false, false)?;
         self.apply_issued(issued)?;
         self.sender = saved;
         Ok(())
@@ -2333,6 +2498,14 @@ impl<'a> Checker<'a>
                 Step::AppSetup => { self.stats.app_setup_again += 1; }
             }
             self.expect_tolerant(|e| matches!(e, Ev::StepEnd(x) if *x == i), "step end")?;
+            for e in std::mem::take(&mut self.gc_overdue)
+            {
+                if self.ents[e].alive
+                {
+                    let bits = self.real(e);
+                    fail!(self, "C10", "autodespawn-leak", &[], "entity {bits:#x} survived a garbage collection (and the rest of the step) although every clone of its signal had been dropped before the collection started");
+                }
+            }
             if !self.stack.is_empty() || !self.postponed.is_empty() { fail!(self, "C02", "postponed-never-resolved", &["C11"], "work outstanding at the end of step {i}"); }
             self.payload_deadline("the end of the step", true)?;
             let Some(Ev::Post(post)) = self.peek()?.cloned() else { return self.unexpected("post-step observation"); };
@@ -2355,6 +2528,7 @@ impl<'a> Checker<'a>
         {
             if markers { me.expect_tolerant(|e| matches!(e, Ev::LastPollBegin), "Last: before the plugin's systems")?; }
             me.guaranteed_gc();
+            me.sure_epoch += 1;
             me.stats.guaranteed_poll += 1;
             me.poll_point()?;
             me.flush_polled(false)?;
@@ -2555,17 +2729,29 @@ impl<'a> Checker<'a>
             let prog: &'a Program = self.prog;
             self.sys.calls_per_key[fkey as usize % 3] += 1;
             let script: &'a [Op] = prog.callee_script(fkey, self.sys.calls_per_key[fkey as usize % 3]);
-            let (issued, _) = self.issue_script(script, CALLEE_BASE + state, seq, false)?;
+            let callee_dw = prog.callee_dw.get(fkey as usize % 3).copied().unwrap_or(false);
+            if callee_dw { self.stats.sys_dw_calls += 1; }
+            let (issued, _) = self.issue_script_r(script, CALLEE_BASE + state, seq, false, false, callee_dw)?;
             match self.peek()?
             {
                 Some(Ev::SysBodyEnd { key: k2, n: n2 }) if *k2 == fkey && *n2 == n => self.advance()?,
                 _ => { self.unexpected("end of the callee body")?; }
             }
             // everything the callee queued is applied before the call returns
+            // (what it queued on the world's own queue, through a `DeferredWorld`, is applied once the system is back in its place:
+            // a call to the same system from there is an ordinary later call, not a recursive one)
+            if callee_dw
+            {
+                if let Some(pos) = self.sys.running.iter().rposition(|s| *s == state) { self.sys.running.remove(pos); }
+                if persist { self.sys.counts.insert(state, n); }
+            }
             self.apply_issued_ctx(issued, true)?;
             self.sender = saved;
-            if let Some(pos) = self.sys.running.iter().rposition(|s| *s == state) { self.sys.running.remove(pos); }
-            if persist { self.sys.counts.insert(state, n); }
+            if !callee_dw
+            {
+                if let Some(pos) = self.sys.running.iter().rposition(|s| *s == state) { self.sys.running.remove(pos); }
+                if persist { self.sys.counts.insert(state, n); }
+            }
             out = Some((value & 0xFFFF) * 1000 + n);
         }
         else if matches!(kind, SysKind::RegisterNamed(_)) { out = Some(0); }
